@@ -322,10 +322,12 @@ AllD(D, v, types) ==
 AllFamilies == { "list1", "enum", "zip", "slice", "join", "tuple", "str1", "split", "splitat",
                  "substr", "parseint", "maybe", "basetype", "shaped", "anyall" }
 
-Big == Size = "sim"
-T(q, t, g) == CASE Size = "quick" -> q [] Size = "thorough" -> t                 \* quick / thorough / simulation;
-                [] Size = "src" -> (IF q > 2 THEN q - 1 ELSE q)                    \* "src"/"srcq": StdlibSrc.tla
-                [] Size = "srcq" -> (IF q > 2 THEN q - 2 ELSE q) [] OTHER -> g     \*   (the std sources under Eval.tla)
+(* T(q, t, g): the bound for Size = "quick" (the bounds of DESIGN 4.11), "thorough" (one more), and the  *)
+(* simulation ("sim": lengths to 12 / 8 / 20, separators to 3); "src" and "srcq" are reduced bounds for *)
+(* StdlibSrc.tla (the std sources evaluated by Eval.tla, which costs ~5 ms per call in TLC)             *)
+T(q, t, g) == CASE Size = "quick" -> q [] Size = "thorough" -> t
+                [] Size = "src" -> (IF q > 2 THEN q - 1 ELSE q)
+                [] Size = "srcq" -> (IF q > 2 THEN q - 2 ELSE q) [] OTHER -> g
 MaxX(f) ==
   CASE f \in {"list1", "slice", "enum", "join"} -> T(4, 5, 12)
     [] f = "zip"   -> T(4, 4, 12)
